@@ -1,7 +1,100 @@
-/- placeholder driver for C12: replaced when the model is built -/
+/-
+  Driver for C12: a history of network operations (with `Current` expression trees to evaluate)
+  and subset queries; the observable state after each operation.
+  request : {"ops":[ {"op":"register","id":s}
+                   | {"op":"add","expr":E,"limit":bits,"name":s|null}
+                   | {"op":"remove","name":s}
+                   | {"op":"update","name":s,"expr":E,"limit":bits,"new_name":s|null}
+                   | {"op":"query","sched":[[bits]],"T":n,"names":[s]|null,"times":[int]|null} ]}
+  E : {"t":"list","ids":[s]} | {"t":"dict","items":[[s,bits]]} | {"t":"str","id":s} | {"t":"none"}
+    | {"t":"add"|"sub","l":E,"r":E} | {"t":"lmul","k":bits,"e":E} | {"t":"rmul","e":E,"k":bits}
+-/
 import AcnModel.Wire
-open Lean Acn.Wire
+import AcnModel.Network
+open Lean Acn Acn.Wire Acn.Network
 
-def handle (_ : Json) : Except String Json := throw "driver for C12 not built yet"
+def asStrs (v : Json) : Except String (List String) := do
+  let a ← asArr v
+  a.mapM (fun x => x.getStr?)
+
+def parseItem (v : Json) : Except String (String × Float) := do
+  match ← asArr v with
+  | [k, x] => pure (← k.getStr?, ← asF x)
+  | _ => throw "item: expected [id, bits]"
+
+partial def parseExpr (j : Json) : Except String (Expr Float) := do
+  let t ← getStr j "t"
+  if t == "list" then
+    pure (.lit (Current.ofList (← asStrs (← j.getObjVal? "ids"))))
+  else if t == "dict" then
+    let items ← (← getArr j "items").mapM parseItem
+    pure (.lit (Current.ofDict items))
+  else if t == "str" then pure (.lit (Current.ofStr (← getStr j "id")))
+  else if t == "none" then pure (.lit Current.empty)
+  else if t == "add" then
+    pure (.add (← parseExpr (← j.getObjVal? "l")) (← parseExpr (← j.getObjVal? "r")))
+  else if t == "sub" then
+    pure (.sub (← parseExpr (← j.getObjVal? "l")) (← parseExpr (← j.getObjVal? "r")))
+  else if t == "lmul" then pure (.lmul (← getF j "k") (← parseExpr (← j.getObjVal? "e")))
+  else if t == "rmul" then pure (.rmul (← parseExpr (← j.getObjVal? "e")) (← getF j "k"))
+  else throw s!"unknown expr {t}"
+
+/-- insertion sort by key (canonical output of a dict-like value) -/
+def sortItems (l : List (String × Float)) : List (String × Float) :=
+  let ins := fun (acc : List (String × Float)) (p : String × Float) =>
+    let (lo, hi) := acc.span (fun q => q.1 < p.1)
+    lo ++ p :: hi
+  l.foldl ins []
+
+def jCoeffs (c : Current Float) : Json :=
+  jList (fun p => Json.arr #[jS p.1, jF p.2]) (sortItems c)
+
+def jState (n : Net Float) : List (String × Json) :=
+  [("stations", jList jS n.stations),
+   ("matrix", jOpt jFss n.matrix),
+   ("magnitudes", jFs n.magnitudes),
+   ("index", jList jS n.index)]
+
+def jErr : Option Err → Json
+  | none => Json.null
+  | some e => jS (errName e)
+
+def stepOp (n : Net Float) (o : Json) : Except String (Net Float × Json) := do
+  let op ← getStr o "op"
+  if op == "register" then
+    let (n', e) := n.register (← getStr o "id")
+    pure (n', Json.mkObj (("err", jErr e) :: jState n'))
+  else if op == "add" then
+    let c := (← parseExpr (← o.getObjVal? "expr")).eval
+    let nm ← getOpt o "name" (fun v => v.getStr?)
+    let (n', e) := n.addConstraint c (← getF o "limit") nm
+    pure (n', Json.mkObj (("err", jErr e) :: ("coeffs", jCoeffs c) :: jState n'))
+  else if op == "remove" then
+    let (n', e) := n.removeConstraint (← getStr o "name")
+    pure (n', Json.mkObj (("err", jErr e) :: jState n'))
+  else if op == "update" then
+    let c := (← parseExpr (← o.getObjVal? "expr")).eval
+    let nn ← getOpt o "new_name" (fun v => v.getStr?)
+    let (n', e) := n.updateConstraint (← getStr o "name") c (← getF o "limit") nn
+    pure (n', Json.mkObj (("err", jErr e) :: ("coeffs", jCoeffs c) :: jState n'))
+  else if op == "query" then
+    let sched ← getFss o "sched"
+    let T ← getNat o "T"
+    let names ← getOpt o "names" asStrs
+    let times ← getOpt o "times" (fun v => do (← asArr v).mapM (fun x => x.getInt?))
+    match n.constraintCurrent sched T names times with
+    | .ok r => pure (n, Json.mkObj [("err", Json.null), ("result", jFss r)])
+    | .error e => pure (n, Json.mkObj [("err", jS (errName e)), ("result", Json.null)])
+  else throw s!"unknown op {op}"
+
+def handle (j : Json) : Except String Json := do
+  let ops ← getArr j "ops"
+  let mut n : Net Float := Net.init
+  let mut outs : Array Json := #[]
+  for o in ops do
+    let (n', r) ← stepOp n o
+    n := n'
+    outs := outs.push r
+  pure (Json.mkObj [("steps", Json.arr outs)])
 
 def main : IO Unit := runDriver handle
